@@ -75,7 +75,10 @@ with mexp :=
 | MOuter (e1 e2 : vexp)                          (* outer_prod *)
 | MProd (alpha : Z) (m1 m2 : mexp)               (* alpha * prod(m1,m2) *)
 | MRepeat (colmajor : bool) (e : vexp) (k : nat) (* vector_repeater: row_major: k rows equal to e; column_major: k columns *)
-| MConcat (rt : bool) (m1 m2 : mexp).         (* m1 | m2  (right = true)   m1 & m2 (right = false) *)
+| MConcat (rt : bool) (m1 m2 : mexp)          (* m1 | m2  (right = true)   m1 & m2 (right = false) *)
+| MTri (upper unit : bool) (m : mexp).        (* to_triangular(m, lower|upper|unit_lower|unit_upper): the named triangle
+                                                 of the stored (square) matrix, unit diagonal for the unit tags;
+                                                 triangular_prod<T>(A,v) = prod(to_triangular(A,T), v) = VMv 1 (MTri ..) v *)
 
 Scheme vexp_mind := Induction for vexp Sort Prop
 with mexp_mind := Induction for mexp Sort Prop.
@@ -118,6 +121,7 @@ with mrows (m : mexp) : nat :=
   | MProd _ m1 _ => mrows m1
   | MRepeat cm e k => if cm then vsize e else k
   | MConcat rt m1 m2 => if rt then mrows m1 else (mrows m1 + mrows m2)%nat
+  | MTri _ _ m => mrows m
   end
 with mcols (m : mexp) : nat :=
   match m with
@@ -137,6 +141,7 @@ with mcols (m : mexp) : nat :=
   | MProd _ _ m2 => mcols m2
   | MRepeat cm e k => if cm then k else vsize e
   | MConcat rt m1 m2 => if rt then (mcols m1 + mcols m2)%nat else mcols m1
+  | MTri _ _ m => mcols m
   end.
 
 Definition fold_ok (k : fkind) (n : nat) : bool :=
@@ -180,6 +185,7 @@ with mwf (m : mexp) : bool :=
   | MRepeat _ e _ => vwf e
   | MConcat rt m1 m2 =>
       mwf m1 && mwf m2 && (if rt then (mrows m1 =? mrows m2)%nat else (mcols m1 =? mcols m2)%nat)
+  | MTri _ _ m => mwf m && (mrows m =? mcols m)%nat
   end.
 
 (* ---------- finite sums / maxima over nat-indexed functions ---------- *)
@@ -254,6 +260,9 @@ with mden (m : mexp) (i j : nat) : Z :=
   | MConcat rt m1 m2 =>
       if rt then (if (j <? mcols m1)%nat then mden m1 i j else mden m2 i (j - mcols m1)%nat)
       else (if (i <? mrows m1)%nat then mden m1 i j else mden m2 (i - mrows m1)%nat j)
+  | MTri upper unit m =>
+      if (i =? j)%nat then (if unit then 1 else mden m i j)
+      else if (if upper then (i <? j)%nat else (j <? i)%nat) then mden m i j else 0
   end.
 
 Definition seval (r : sexp) : Z :=
@@ -354,7 +363,7 @@ Fixpoint vuses (a : addr) (e : vexp) : bool :=
 with muses (a : addr) (m : mexp) : bool :=
   match m with
   | MVar A _ _ => same_container a false A
-  | MTrans m | MRange m _ _ _ _ | MRows m _ _ | MCols m _ _ | MScale _ m | MUn _ m => muses a m
+  | MTrans m | MRange m _ _ _ _ | MRows m _ _ | MCols m _ _ | MScale _ m | MUn _ m | MTri _ _ m => muses a m
   | MConst _ _ _ => false
   | MDiagM e | MRepeat _ e _ => vuses a e
   | MAdd m1 m2 | MMinus m1 m2 | MBin _ m1 m2 | MProd _ m1 m2 | MConcat _ m1 m2 => muses a m1 || muses a m2
